@@ -85,6 +85,9 @@ pub struct DeviceDesc {
     pub coe_pdo: bool,
     /// Oversampling factors per PDO index the application expects (C08).
     pub oversampling: Vec<(u16, u16)>,
+    /// The SII SyncManager category leaves the type byte 0 ("unknown", as older SII images do): the
+    /// purpose of a sync manager then follows from its control byte (mode + direction).
+    pub sii_untyped_sms: bool,
 }
 
 pub const CAT_STRINGS: u16 = 10;
@@ -132,6 +135,7 @@ impl DeviceDesc {
             stale_address: 0,
             coe_pdo: false,
             oversampling: vec![],
+            sii_untyped_sms: false,
         }
     }
 
@@ -230,7 +234,7 @@ fn category_payloads(d: &DeviceDesc) -> Vec<(u16, Vec<u8>)> {
             p.push(s.control);
             p.push(0);
             p.push(s.enable);
-            p.push(s.usage);
+            p.push(if d.sii_untyped_sms { 0 } else { s.usage });
         }
         out.push((CAT_SM, p));
     }
@@ -534,6 +538,7 @@ pub fn gen_pd_desc(rng: &mut Rng, o: &PdOpts) -> DeviceDesc {
     if o.fmmu_ex {
         d.fmmu_ex = (0..d.sms.len() as u8).collect();
     }
+    d.sii_untyped_sms = rng.chance(1, 6);
     d.eeprom_bytes = build_sii(&d).len().next_power_of_two().max(2048);
     d
 }
